@@ -1,8 +1,10 @@
+pub mod backends;
 pub mod chacha_guts;
 pub mod chacha_stream;
 pub mod hashes;
 pub mod ppvnull;
 pub mod threefish;
+pub mod vecs;
 
 use crate::engine::Ctx;
 
@@ -20,6 +22,9 @@ pub fn run(ctx: &mut Ctx) -> bool {
         "C09" => threefish::run_c09(ctx),
         "C10" => threefish::run_c10(ctx),
         "C19" => ppvnull::run_c19(ctx),
+        "C12" => vecs::run_c12(ctx),
+        "C13" => vecs::run_c13(ctx),
+        "C03" => backends::run_c03(ctx),
         "C11" => chacha_stream::run_c11(ctx),
         "C14" => chacha_guts::run_c14(ctx),
         "C15" => chacha_guts::run_c15(ctx),
